@@ -55,20 +55,13 @@ theorem all_set_of_count {b : List Bool} (h : countSet b ≥ b.length) : ∀ i, 
         have := ih h' k (by simpa using hi)
         simpa [bit] using this
 
-/-- the reported hash is unknown (it could not be computed in time): with a tail of at least one chunk the highest recorded chunk
-is at or above `forceSendFrom`, so the regular pass sends it -/
-theorem force_le_unknown {c : Cfg} {info : Info} (hk : info.hashKnown = false) (ht : c.tail ≥ 1) (h0 : info.total > 0)
-    (hv : info.lastVerified < info.total) (hall : countSet info.bitmap ≥ info.total → info.lastVerified + 1 = info.total) :
-    (plan c info).forceFrom ≤ info.lastVerified := by
-  simp only [plan, hk, hv, ↓reduceIte, Bool.not_false, true_and, h0, decide_true, Bool.true_and]
-  by_cases hc : countSet info.bitmap ≥ info.total
-  · have := hall hc
-    simp only [hc, decide_true, Bool.not_true, Bool.false_eq_true, ↓reduceIte]
-    repeat' split
-    all_goals omega
-  · simp only [hc, decide_false, Bool.not_false, ↓reduceIte]
-    repeat' split
-    all_goals omega
+/-- the reported hash is unknown (it could not be computed in time): the highest recorded chunk is at or above `forceSendFrom`, so
+the regular pass sends it - whatever the tail -/
+theorem force_le_unknown {c : Cfg} {info : Info} (hk : info.hashKnown = false) (h0 : info.total > 0)
+    (hv : info.lastVerified < info.total) : (plan c info).forceFrom ≤ info.lastVerified := by
+  simp only [plan, hk, hv, ↓reduceIte, Bool.not_false, true_and, h0]
+  repeat' split
+  all_goals omega
 
 /-- the reported hash is known: `forceSendFrom` is the highest recorded chunk + 1 less the tail (or `total` when all is recorded) -/
 theorem force_known {c : Cfg} {info : Info} (hk : info.hashKnown = true) (hv : info.lastVerified < info.total) :
